@@ -68,9 +68,11 @@ const (
 	// the account counts as a release of the duty if it is a valid partial signature over the duty.
 	routeBatch2Pad = 7 // as routeBatch2Key, the account addressed by its share public key followed by one more byte (the
 	// account lookup uses the first 48 bytes)
-	routeBatch2KeyFault = 8 // as routeBatch2Key, while every write to this instance's slashing-protection store fails
-	routeSingleFault    = 9 // as routeSingleName, while every write to this instance's slashing-protection store fails
-	routeStale          = 5 // not a duty at all: a batch of two whose entry for the account is an older attestation (source 0,
+	routeBatch2KeyFault   = 8  // as routeBatch2Key, while every write to this instance's slashing-protection store fails
+	routeSingleFault      = 9  // as routeSingleName, while every write to this instance's slashing-protection store fails
+	routeBatch2SameTarget = 10 // batch of two by public key: a fresh plain account's attestation with the duty's target
+	// epoch and source 0 first, the duty second (what is recorded for one entry must not borrow from its neighbour)
+	routeStale = 5 // not a duty at all: a batch of two whose entry for the account is an older attestation (source 0,
 	// target 1), which is refused once anything later has been signed; neither duty may become signable through it
 )
 
@@ -91,7 +93,7 @@ func signDuty(c *rig.Cluster, id uint64, account string, d duty, route int) []by
 		ctx = context.WithValue(ctx, sigFaultKey{}, "write")
 		route = map[int]int{routeBatch2KeyFault: routeBatch2Key, routeSingleFault: routeSingleName}[route]
 	}
-	if route == routeSingleKey || route == routeBatch2Key || route == routeBatch2Last || route == routeBatch2Pad {
+	if route == routeSingleKey || route == routeBatch2Key || route == routeBatch2Last || route == routeBatch2Pad || route == routeBatch2SameTarget {
 		_, acc, err := n.Rig.RealFetch.FetchAccount(n.Rig.Ctx, account)
 		if err != nil {
 			return nil
@@ -114,6 +116,14 @@ func signDuty(c *rig.Cluster, id uint64, account string, d duty, route int) []by
 		comp := n.Rig.AddSymAccount("Wallet 1", "", "pass", true)
 		_, sigs := n.Rig.Signer.SignBeaconAttestations(ctx, creds, []string{"", ""}, [][]byte{comp.PubBytes(), append(append([]byte{}, key...), 0)},
 			[]*rules.SignBeaconAttestationData{AttData(Ent{S: 0, T: 1, Root: 1}), data})
+		if len(sigs) > 1 {
+			return sigs[1]
+		}
+		return nil
+	case routeBatch2SameTarget:
+		comp := n.Rig.AddSymAccount("Wallet 1", "", "pass", true)
+		_, sigs := n.Rig.Signer.SignBeaconAttestations(ctx, creds, []string{"", ""}, [][]byte{comp.PubBytes(), key},
+			[]*rules.SignBeaconAttestationData{AttData(Ent{S: 0, T: d.e.T, Root: 1}), data})
 		if len(sigs) > 1 {
 			return sigs[1]
 		}
@@ -191,7 +201,7 @@ func signStale(c *rig.Cluster, id uint64, account string) {
 // c14RoutedSequences: every sequence of length <= 2 over the routed duties (5 routes for attestations, the two
 // single routes for proposals), plus every sequence of length 3 over the plain single-by-name duties.
 func c14RoutedSequences(prop bool) [][]int {
-	routes := []int{routeSingleName, routeSingleKey, routeBatch1Name, routeBatch2Key, routeBatch2Last, routeBatch2Pad}
+	routes := []int{routeSingleName, routeSingleKey, routeBatch1Name, routeBatch2Key, routeBatch2Last, routeBatch2Pad, routeBatch2SameTarget}
 	if prop {
 		routes = []int{routeSingleName, routeSingleKey}
 	}
@@ -572,7 +582,7 @@ func C14(tier string) int {
 			for _, seq := range c14RoutedSequences(false) {
 				hasBatch2 := false
 				for _, sym := range seq {
-					if r := symRoute(sym); r == routeBatch2Key || r == routeBatch2Last || r == routeStale || r == routeDecoy || r == routeBatch2Pad || r == routeBatch2KeyFault {
+					if r := symRoute(sym); r == routeBatch2Key || r == routeBatch2Last || r == routeStale || r == routeDecoy || r == routeBatch2Pad || r == routeBatch2KeyFault || r == routeBatch2SameTarget {
 						hasBatch2 = true
 					}
 				}
